@@ -398,9 +398,22 @@ pub fn gen_windows(t: &mut Tape) -> Vec<Vec<f64>> {
     }
 }
 
+/// Now and then replace one *mean of a dynamic feature* (never a variance, a static mean or a
+/// voicing weight, so synthesis stays well-behaved) by a float32 with a special bit pattern:
+/// +0.0, -0.0 or a subnormal. Loading must preserve the bits.
+fn special_entries(t: &mut Tape, mut p: Vec<f32>, protect: usize) -> Vec<f32> {
+    // PDFs are [means | variances | msd?]; the first `protect` means are static features
+    let half = p.len() / 2;
+    if t.chance(0.15) && protect < half {
+        let k = protect + t.below(half - protect);
+        p[k] = *t.pick(&[-0.0f32, 0.0, f32::from_bits(1), -f32::from_bits(0x0000_7fff)]);
+    }
+    p
+}
+
 /// Random binary decision tree with up to 2^depth leaves; PDFs are assigned to leaves in a
 /// generated permutation; node ids are 0 for the root and negative, non-contiguous otherwise.
-fn gen_tree(t: &mut Tape, state: usize, nq: usize, max_depth: usize, mut pdf: impl FnMut(&mut Tape) -> Vec<f32>) -> TreeSpec {
+fn gen_tree(t: &mut Tape, state: usize, nq: usize, max_depth: usize, protect: usize, mut pdf: impl FnMut(&mut Tape) -> Vec<f32>) -> TreeSpec {
     let quoted = !t.chance(0.3);
     // number of internal nodes
     let max_nodes = (1usize << max_depth) - 1;
@@ -412,7 +425,7 @@ fn gen_tree(t: &mut Tape, state: usize, nq: usize, max_depth: usize, mut pdf: im
     if n_internal == 0 || nq == 0 {
         let npdf = t.urange(1, 3);
         let leaf = t.urange(1, npdf);
-        let pdfs = (0..npdf).map(|_| pdf(t)).collect();
+        let pdfs = (0..npdf).map(|_| { let p = pdf(t); special_entries(t, p, protect) }).collect();
         return TreeSpec { state, nodes: vec![], leaf, pdfs, npdf, quoted };
     }
     // grow: start with root having two open slots; repeatedly turn a random open slot into a node
@@ -473,7 +486,7 @@ fn gen_tree(t: &mut Tape, state: usize, nq: usize, max_depth: usize, mut pdf: im
     for (s, id) in specs.iter_mut().zip(&ids) {
         s.id = *id;
     }
-    let pdfs = (0..npdf).map(|_| pdf(t)).collect();
+    let pdfs = (0..npdf).map(|_| { let p = pdf(t); special_entries(t, p, protect) }).collect();
     TreeSpec { state, nodes: specs, leaf: 0, pdfs, npdf, quoted }
 }
 
@@ -496,13 +509,14 @@ fn gen_model(
     states: &[usize],
     pdf_len: usize,
     max_depth: usize,
+    protect: usize,
     mut pdf: impl FnMut(&mut Tape, usize) -> Vec<f32>,
 ) -> ModelSpec {
     let nq = t.urange(1, 10);
     let questions = gen_questions(t, nq);
     let trees = states
         .iter()
-        .map(|s| gen_tree(t, *s, questions.len(), max_depth, |t| pdf(t, *s)))
+        .map(|s| gen_tree(t, *s, questions.len(), max_depth, protect, |t| pdf(t, *s)))
         .collect();
     ModelSpec { prefix: prefix.to_string(), questions, trees, pdf_len }
 }
@@ -529,7 +543,7 @@ pub fn gen_voice(t: &mut Tape, o: GenOpts) -> VoiceSpec {
     // duration: small means so that utterances stay short
     let dmax = if o.small { 4.0 } else { 12.0 };
     let ns = num_states;
-    let duration = gen_model(t, "dur", &[2], ns * 2, o.max_depth, |t, _| {
+    let duration = gen_model(t, "dur", &[2], ns * 2, o.max_depth, usize::MAX, |t, _| {
         let mut v = Vec::with_capacity(ns * 2);
         for _ in 0..ns {
             v.push(t.uniform(0.3, dmax) as f32);
@@ -603,7 +617,7 @@ pub fn gen_voice(t: &mut Tape, o: GenOpts) -> VoiceSpec {
         options.swap(i, j);
     }
     let spec_name = if lsp { "LSP" } else { "MCP" };
-    let spec_model = gen_model(t, if lsp { "lsp" } else { "mgc" }, &states, spec_len * nw * 2, o.max_depth, spec_pdf);
+    let spec_model = gen_model(t, if lsp { "lsp" } else { "mgc" }, &states, spec_len * nw * 2, o.max_depth, spec_len, spec_pdf);
     // GV statistics consistent with the stream's own PDFs (variance of the static means over all
     // PDFs, times a factor in [0.5,1.5]) so that GV does not push parameters out of the stable range
     let static_var = |m: &ModelSpec, l: usize, k: usize| -> f64 {
@@ -614,7 +628,7 @@ pub fn gen_voice(t: &mut Tape, o: GenOpts) -> VoiceSpec {
     };
     let spec_gv_model = if spec_gv {
         let vars: Vec<f64> = (0..spec_len).map(|k| static_var(&spec_model, spec_len, k)).collect();
-        Some(gen_model(t, "gv_mgc", &[2], spec_len * 2, 2, |t, _| {
+        Some(gen_model(t, "gv_mgc", &[2], spec_len * 2, 2, usize::MAX, |t, _| {
             let means: Vec<f32> = vars.iter().map(|v| (v * t.uniform(0.5, 1.5)).max(1e-6) as f32).collect();
             let mut v = means.clone();
             v.extend(means.iter().map(|m| (0.3 * m) * (0.3 * m)).map(|x| x.max(1e-12)));
@@ -639,7 +653,7 @@ pub fn gen_voice(t: &mut Tape, o: GenOpts) -> VoiceSpec {
     let lnw = lf0_windows.len();
     let lf0_center = t.uniform(4.3, 5.6);
     let lf0_gv = t.chance(0.5);
-    let lf0_model = gen_model(t, "lf0", &states, lnw * 2 + 1, o.max_depth, |t, _| {
+    let lf0_model = gen_model(t, "lf0", &states, lnw * 2 + 1, o.max_depth, 1, |t, _| {
         let mut v = vec![0f32; lnw * 2 + 1];
         v[0] = (lf0_center + t.uniform(-0.4, 0.4)) as f32;
         for w in 1..lnw {
@@ -657,7 +671,7 @@ pub fn gen_voice(t: &mut Tape, o: GenOpts) -> VoiceSpec {
     });
     let lf0_gv_model = if lf0_gv {
         let v = static_var(&lf0_model, 1, 0);
-        Some(gen_model(t, "gv_lf0", &[2], 2, 2, |t, _| {
+        Some(gen_model(t, "gv_lf0", &[2], 2, 2, usize::MAX, |t, _| {
             let m = (v * t.uniform(0.5, 1.5)).max(1e-5) as f32;
             vec![m, ((0.3 * m) * (0.3 * m)).max(1e-12)]
         }))
@@ -679,7 +693,7 @@ pub fn gen_voice(t: &mut Tape, o: GenOpts) -> VoiceSpec {
         let lpf_len = 1 + 2 * t.below(if o.small { 4 } else { 16 });
         let lpf_windows = if t.chance(0.2) { gen_windows(t) } else { vec![WIN_STATIC.to_vec()] };
         let pnw = lpf_windows.len();
-        let lpf_model = gen_model(t, "lpf", &states, lpf_len * pnw * 2, 2, |t, _| {
+        let lpf_model = gen_model(t, "lpf", &states, lpf_len * pnw * 2, 2, lpf_len, |t, _| {
             let mut v = vec![0f32; lpf_len * pnw * 2];
             let c = lpf_len / 2;
             for i in 0..lpf_len {
